@@ -6,7 +6,7 @@ META = {
     "technique": "Lean 4 theorems over an executable model of balancer.go (murmur2 loop ≡ block-recursive MurmurHash2 by induction; range/min/cycle invariants by induction over call histories); constants regenerated from source; model↔code differential correspondence through a compiled Lean oracle",
     "level_claimed": {
         "category": "proof",
-        "text": "Kernel-checked theorems for every key, partition count (< 2^31 / 2^32), chunk size and call history: offered-partition, agreement with the Sarama / librdkafka / Java partition formulas incl. nil/empty-key rules, RoundRobin cycle for EVERY number of calls and every ChunkSize (position+count model, since the fix of D10; the former call-counter version is kept as RoundRobinLegacy with its wrap counterexample), LeastBytes minimality as an invariant over reachable states. The model is tied to balancer.go by constants re-extracted on every run and by running real balancers and the model on the same generated inputs.",
+        "text": "Kernel-checked theorems for every key, partition count (< 2^31 / 2^32), chunk size and call history: offered-partition, agreement with the Sarama / librdkafka / Java partition formulas incl. nil/empty-key rules, RoundRobin cycle for the first 2^64 calls and every ChunkSize, also for one balancer shared by lists of different lengths (64-bit call counter since the fix of D10; the 32-bit version of the pinned tree and the reverted position-keeping repair are kept as RoundRobinLegacy / RoundRobinPos with their counterexamples), LeastBytes minimality as an invariant over reachable states. The model is tied to balancer.go by constants re-extracted on every run and by running real balancers and the model on the same generated inputs.",
         "design_ref": "DESIGN.md §7 C13",
     },
     "level_note": "Trusted: Lean kernel; propext/Classical.choice/Quot.sound; the go/ast constant extractor; the driver/oracle correspondence (sampled inputs); Spec/Partitioners.lean is a transcription of the published reference formulas (no reference client in the sandbox); stdlib crc32/fnv modelled and validated by correspondence only; mutex atomicity of Balance bodies assumed (sampled by a concurrent multiset test); byte totals < 2^64.",
@@ -18,7 +18,7 @@ MODULE = "KafkaVerif.Props.C13"
 def run(ctx):
     ctx.assumptions += [
         "partition counts < 2^31 (Hash/ReferenceHash) resp. < 2^32 (CRC32/Murmur2), as len() of a real slice",
-        "RoundRobin: fixed non-empty partition list for the cycle theorem (a changing list continues from the current position); ChunkSize < 1 normalised to 1; no bound on calls or ChunkSize",
+        "RoundRobin: fewer than 2^64 calls on one balancer value (uint64 call counter; 584 years at one call per nanosecond) — beyond that the cycle breaks once (roundRobin_wrap64_counterexample); ChunkSize < 1 normalised to 1; no bound on ChunkSize",
         "LeastBytes: fixed duplicate-free partition list; byte totals < 2^64",
         "each Balance body is atomic: lock bracket extracted by go/ast on every run (theorem balance_bodies_atomic); mutex semantics trusted; sampled by rrconc/lbconc cases",
         "Hash/ReferenceHash: the hasher is acquired before and released (deferred) after its uses on both paths — event lists regenerated on every run (hasher_paths_owned); sync.Pool / sync.Mutex semantics trusted (pool_exclusive is about the Pool model); sampled by hashconc cases incl. a -race build",
@@ -56,7 +56,7 @@ def run(ctx):
                              nontrivial=lambda op, impl: not op.startswith("cached"))
         ctx.coverage["race_reports_in_balancer"] = len(races)
     ctx.coverage["rule"] = ("keys: nil, empty, every length 1..40, test-vector strings, random lengths (bias to high-bit bytes); partition counts "
-                            "1..65536 (+2^20 for index balancers); sparse/shifted id lists; RoundRobin chunk sizes incl. <1 and starting points just before 2^32, 2^63, 2^64 calls (placed by the verif hook); "
+                            "1..65536 (+2^20 for index balancers); sparse/shifted id lists; RoundRobin chunk sizes incl. <1 and starting points just before 2^32 and 2^63 calls (placed by the verif hook); rrvar = lists that change between calls, checked against the global-call-number formula; "
                             "LeastBytes size sequences on permuted lists; concurrent multiset cases; hashconc = 8..32 goroutines sharing one key-hashing balancer "
                             "(pool / user hasher / crc32 / murmur2; keys up to 2 KB), also under the race detector; woffer = a real Writer over a fake RoundTripper "
                             "(topic missing / topic-level error codes / 1..9 partitions / decoy entry first; every built-in balancer + the default). distinct = distinct op lines other than `cached`")
